@@ -508,3 +508,60 @@ func FillDefaults(s *corpus.Schema, t corpus.TypeExpr, v *model.Value) *model.Va
 	}
 	return c
 }
+
+// JSONKeyOrders scans a JSON document with encoding/json's tokenizer and returns the key sequence of every
+// object in order of appearance.
+func JSONKeyOrders(data []byte) ([][]string, error) {
+	dec := json.NewDecoder(bytes.NewReader(data))
+	dec.UseNumber()
+	var orders [][]string
+	type frame struct {
+		isObj   bool
+		idx     int
+		wantKey bool
+	}
+	var stack []frame
+	for {
+		tok, err := dec.Token()
+		if err != nil {
+			if err.Error() == "EOF" {
+				break
+			}
+			return nil, err
+		}
+		top := func() *frame {
+			if len(stack) == 0 {
+				return nil
+			}
+			return &stack[len(stack)-1]
+		}
+		switch t := tok.(type) {
+		case json.Delim:
+			switch t {
+			case '{':
+				if f := top(); f != nil && f.isObj {
+					f.wantKey = true
+				}
+				orders = append(orders, nil)
+				stack = append(stack, frame{true, len(orders) - 1, true})
+			case '[':
+				if f := top(); f != nil && f.isObj {
+					f.wantKey = true
+				}
+				stack = append(stack, frame{false, 0, false})
+			case '}', ']':
+				stack = stack[:len(stack)-1]
+			}
+		default:
+			if f := top(); f != nil && f.isObj {
+				if f.wantKey {
+					orders[f.idx] = append(orders[f.idx], t.(string))
+					f.wantKey = false
+				} else {
+					f.wantKey = true
+				}
+			}
+		}
+	}
+	return orders, nil
+}
